@@ -10,7 +10,7 @@ import cli
 from impl import trees, treeoutput, treeinput, quiet, clone
 
 ID = "C17"
-MODULE = ['TT.Props.C17', 'TT.Props.C17More']
+MODULE = ['TT.Props.C17', 'TT.Props.C17More', 'TT.Props.C17Run']
 RULE = ("exhaustive specifications of up to 3 parts over {0#,1#,2#,5#,13#,0%,10%,29%,33%,50%,57%,100%,rest} x sizes "
         "0..12 and {100} (quick; more sizes thorough), a malformed stream, and `treetools transform --split` runs over "
         "all five output formats with and without filter_by_length. Non-trivial: more than one part")
@@ -55,6 +55,11 @@ def body(fmt, text):
                 return text[len(h):len(text) - len(tail)]
         return None
     return text
+
+
+def tx_call(name, params):
+    import tx
+    return tx.call_str(name, params)
 
 
 def cli_case(rng, idx):
@@ -111,9 +116,29 @@ def cli_case(rng, idx):
                     txt = sc.read(f)
                     sizes.append(txt.count("\n"))
             observed = "[" + ",".join(str(x) for x in sizes) + "]"
+            texts = [sc.read(f) for f in files]
+            parts_txt = "|".join(proto.enc_s(x) for x in texts) if texts else "EMPTY"
         else:
             observed = "ERR:ValueError" if "ValueError" in err else "ERR:Other"
+            parts_txt = observed
     lines = [Line("corr", "split_spec", [proto.enc_s(spec), str(n)], observed)]
+    # the whole command against the model of transform.run with --split: the text of every part
+    import re as _re
+    decl = None
+    if fmt == "tigerxml" and rc == 0 and texts:
+        m = _re.match(r"<\?xml version='1.0' encoding='([^']*)'\?>", texts[0])
+        decl = m.group(1) if m else None
+    dod = {}
+    for x in do:
+        if ":" in x:
+            kx, vx = x.split(":", 1)
+            dod[kx] = vx
+        else:
+            dod[x] = True
+    calls = tx_call("filter_by_length", {"filteroperator": "lt", "filtervalue": fval}) if use_filter else ""
+    lines.append(Line("corr", "convert_split", ["export", "continuous" if "continuous" in extra else "-", fmt, proto.enc_opts(dod),
+                                                proto.enc_s(decl) if decl is not None else "n", calls, proto.enc_s(spec),
+                                                proto.enc_s("".join(x[0] for x in sents))], parts_txt))
     if problems:
         l = Line("pred", "P.C17.reject", [proto.enc_s(spec), str(n)], note=";".join(problems))
         l.expect = "parts-well-formed-expected:" + problems[0]
